@@ -121,6 +121,11 @@ class C12(F.Check):
                   4759123141, 1122004669633, 318665857834031151167461 % (1 << 61)]
         dense += [5459, 5777, 10877, 16109, 18971, 22499, 24569, 25199, 40309, 58519, 75077, 97439, 100127, 113573, 115639, 130139,
                   155819, 158399, 161027, 162133, 176399, 176471, 189419, 192509, 197801, 224369, 230691, 231703, 243629, 253259]
+        # odd non-squares n for which an early Newton iterate c of the ORIGINAL is_perfect_square satisfied c*c == n (mod 2^64)
+        # (found with the solver / 2-adic square roots, see DESIGN.md D15); 10785637507345693793 is prime
+        self.wrap_squares = [10685528935143053617, 15405458870843798969, 3705102001104354505, 12673371479969681361,
+                             9425997995154109105, 11837406317022473153, 10785637507345693793, (1 << 34) + 4]
+        dense += [x for x in self.wrap_squares if x % 2]
         dense += [int(sympy.nextprime(x)) for x in dense[::7]] + [int(sympy.prevprime(x)) for x in dense[3::11]]
         for a, b, c in ((547, 557, 563), (1009, 1013, 1019), (65521, 65537, 65539)):
             dense += [a * b * c, a * a * b]
@@ -131,6 +136,11 @@ class C12(F.Check):
             expr = " && ".join("(au::detail::is_prime(%dull) == %s)" % (x, "true" if sympy.isprime(x) else "false") for x in chunk)
             k = F.Kernel("c12_isprime_batch_%d" % (i // 16), "bool", [], "constexpr bool v = %s; return v;" % expr,
                          key={"numbers": chunk}, family="is_prime_batch", native=False)
+            ks.append(k)
+            self.closed.append(k)
+        for x in self.wrap_squares:
+            k = F.Kernel("c12_notsquare_%d" % x, "bool", [], "constexpr bool v = au::detail::is_perfect_square(%dull); return !v;" % x,
+                         key={"n": x, "why": "an iterate squares to n modulo 2^64"}, family="is_perfect_square_closed", native=False)
             ks.append(k)
             self.closed.append(k)
         # products: mag<a>() * mag<b>() == mag<a*b>()
@@ -349,7 +359,7 @@ class C12(F.Check):
         # wraps onto n would be a false positive (it is one for the even n = 2^34 + 4, which the primality test never passes in).
         # For ODD n with n mod 8 in {3, 5, 7} (so certainly not squares) the solver shows that
         # no return within the first U iterations answers 'true'.
-        U_SQ = 8 if self.tier == "quick" else 16
+        U_SQ = 6 if self.tier == "quick" else 24
 
         def fn_sq(K, n, U_SQ=U_SQ):
             if isinstance(K["c12_is_square"], F.NativeHandle):
